@@ -148,7 +148,8 @@ def load_findings():
 
 def match_known(prop, sig, known):
     for k in known:
-        if k["property"] == prop and fnmatch.fnmatchcase(sig, k["sig"]):
+        # literal equality first: signatures contain "[...]" (exception types), which fnmatch reads as a character class
+        if k["property"] == prop and (sig == k["sig"] or fnmatch.fnmatchcase(sig, k["sig"])):
             return k
     return None
 
